@@ -445,3 +445,21 @@ func implementsRecorder(w *World, t types.Type) bool {
 	}
 	return false
 }
+
+// checkSinkBookkeeping: for the given sink roles, over all placements of start/write/stop failures, some field of the
+// processor mirrors the sink's open/closed state at every quiescent state (so a failed start leaves "not recording",
+// a failed stop leaves "closed"); shared by C12 (all sinks) and C17 (continuous and test sinks: a test recording whose
+// start failed must not swallow the next request or write into a closed file).
+func checkSinkBookkeeping(w *World, r *Report, run *tsRun, rule string, roles ...int) {
+	inv := inferSinkInvariant(run)
+	for _, role := range roles {
+		rn := run.C.RoleNames[role]
+		if inv[role].pred == "" {
+			r.Fail(rule, "sink="+rn+"/bookkeeping under failures", "-",
+				"no field of the processor mirrors the open/closed state of the "+rn+" sink over all failure placements: after some event sequence the processor believes the sink is open while it is closed (or the reverse)",
+				inv[role].counter)
+		} else {
+			r.Pass(rule, "sink="+rn+"/bookkeeping under failures", "-", "at all "+fmt.Sprint(len(run.Reach))+" quiescent states: "+inv[role].pred+" <=> "+rn+" sink open")
+		}
+	}
+}
